@@ -19,7 +19,7 @@ mod wallet {
 }
 use wallet::encryption::{decrypt_private_key, encrypt_private_key};
 
-use ant_bootstrap::{craft_valid_multiaddr_from_str, BootstrapCacheConfig, BootstrapCacheStore};
+use ant_bootstrap::{craft_valid_multiaddr_from_str, BootstrapCacheConfig, BootstrapCacheStore, PeersArgs};
 use ant_evm::{AttoTokens, EvmError};
 use ant_node_manager::add_services::config::PortRange;
 use ant_evm::ProofOfPayment;
@@ -385,6 +385,35 @@ fn run(case: &Value) -> Value {
                 }
                 Err(e) => json!({"r": "err", "msg": e.to_string(), "now_secs": now_secs}),
             }
+        }
+        // the cache file's formatter: write() of a freshly built store (populated or EMPTY, or the `first` constructor,
+        // which writes an empty cache) over whatever the same path held, then load_cache_data must return what was written
+        "cache_save_seq" => {
+            let dir = tempfile::tempdir().unwrap();
+            let path = dir.path().join("cache.json");
+            let cfg = BootstrapCacheConfig::empty().with_cache_path(&path);
+            let mut out = Vec::new();
+            for st in case["steps"].as_array().unwrap() {
+                let mut wrote = true;
+                if st["first"].as_bool().unwrap_or(false) {
+                    let pa = PeersArgs { first: true, ..Default::default() };
+                    wrote = BootstrapCacheStore::new_from_peers_args(&pa, Some(cfg.clone())).is_ok();
+                } else {
+                    let mut store = BootstrapCacheStore::new(cfg.clone()).unwrap();
+                    for a in st["adds"].as_array().unwrap() {
+                        store.add_addr(a.as_str().unwrap().parse().unwrap());
+                    }
+                    wrote = store.write().is_ok();
+                }
+                let loaded = BootstrapCacheStore::load_cache_data(&cfg);
+                let mut addrs: Vec<String> = loaded
+                    .as_ref()
+                    .map(|d| d.peers.values().flat_map(|l| l.0.iter().map(|a| a.addr.to_string())).collect())
+                    .unwrap_or_default();
+                addrs.sort();
+                out.push(json!({"wrote": wrote, "load_ok": loaded.is_ok(), "addrs": addrs}));
+            }
+            json!({"steps": out})
         }
         // ------------------------------------------------------------------ node registry file
         "registry_load" => {
